@@ -276,13 +276,83 @@ def constant_fields(fa, call):
     return {f: v.value for f, v in got.items() if isinstance(v, ast.Constant)}
 
 
+def private_sentinels(fa):
+    """Module-level names bound once to a fresh `object()` that the module uses for nothing but identity tests, plain
+    assignments to locals and returns, and that no other module imports: no value that was not read from that very
+    name is identical to it."""
+    mod = fa.fi.module
+    cached = mod.__dict__.get("_private_sentinels")
+    if cached is not None:
+        return cached
+    out = set()
+    for name, v in mod.assigns.items():
+        if not (isinstance(v, ast.Call) and isinstance(v.func, ast.Name) and v.func.id == "object" and not v.args and not v.keywords):
+            continue
+        ok = True
+        parents = {}
+        for n in ast.walk(mod.tree):
+            for ch in ast.iter_child_nodes(n):
+                parents[id(ch)] = n
+        stores = 0
+        for n in ast.walk(mod.tree):
+            if isinstance(n, (ast.Global, ast.Nonlocal)) and name in n.names:
+                ok = False
+            if isinstance(n, ast.Name) and n.id == name:
+                par = parents.get(id(n))
+                if isinstance(n.ctx, ast.Store):
+                    stores += 1
+                elif isinstance(par, ast.Compare) and len(par.ops) == 1 and isinstance(par.ops[0], (ast.Is, ast.IsNot)):
+                    pass
+                elif isinstance(par, ast.Return) or (isinstance(par, ast.Assign) and par.value is n and all(isinstance(t, ast.Name) for t in par.targets)):
+                    pass
+                elif isinstance(par, ast.IfExp) and n is not par.test:
+                    pass
+                else:
+                    ok = False
+        if stores != 1:
+            ok = False
+        for other in fa.ck.repo.modules.values():
+            if other is not mod and any(o.endswith(":" + name) and o.split(":")[0].lstrip(".").split(".")[-1] == mod.name for o in other.imports.values()):
+                ok = False
+        if ok:
+            out.add(name)
+    mod.__dict__["_private_sentinels"] = out
+    return out
+
+
+def _cannot_be(fa, e, name):
+    """The value of `e` is not the object the module-level sentinel `name` holds: `e` does not read the name and calls
+    nothing of this module that does."""
+    mod = fa.fi.module
+    mentions = mod.__dict__.setdefault("_mentions_%s" % name, {})
+    if not mentions:
+        for f in ast.walk(mod.tree):
+            if isinstance(f, (ast.FunctionDef, ast.AsyncFunctionDef, ast.Lambda)):
+                if any(isinstance(x, ast.Name) and x.id == name for x in ast.walk(f)):
+                    mentions[getattr(f, "name", "<lambda>")] = True
+        mentions[""] = False
+    for n in ast.walk(e):
+        if isinstance(n, ast.Name) and n.id == name:
+            return False
+        if isinstance(n, ast.Lambda) and mentions.get("<lambda>"):
+            return False
+        if isinstance(n, ast.Call):
+            callee = n.func.id if isinstance(n.func, ast.Name) else (n.func.attr if isinstance(n.func, ast.Attribute) else None)
+            if callee is None or mentions.get(callee):
+                return False
+    return True
+
+
 class _Bound:
     """What a walk knows about plain locals from the bindings it passed: `x = y` (x is y until either is bound
-    again), `x = Record(..., ok=False)` (the constant fields of the record x holds)."""
+    again), `x = Record(..., ok=False)` (the constant fields of the record x holds), `x = <expression>` (what x was
+    computed from: decides `x is SENTINEL` for a private sentinel of the module)."""
 
     def __init__(self, fa):
         self.fa = fa
         self._consts = {}
+        self._exprs = {}
+        self.sentinels = private_sentinels(fa)
 
     def after(self, n, binds):
         ds = self.fa.df.gen.get(n, [])
@@ -295,28 +365,58 @@ class _Bound:
             for k in [k for k, v in new.items() if v[0] == "alias" and v[1] == d.name]:
                 new.pop(k)
         for d in ds:
-            if d.kind != "assign" or d.value is None or len(ds) != 1:
-                continue
             v = d.value
-            if isinstance(v, ast.Name) and v.id != d.name:
+            if v is None:
+                continue
+            if d.kind == "assign" and len(ds) == 1 and isinstance(v, ast.Name) and v.id != d.name:
                 new[d.name] = cur.get(v.id) or ["alias", v.id]
-            elif isinstance(v, ast.Call):
+                continue
+            if d.kind == "assign" and len(ds) == 1 and isinstance(v, ast.Call):
                 if id(v) not in self._consts:
                     self._consts[id(v)] = constant_fields(self.fa, v)
                 if self._consts[id(v)]:
                     new[d.name] = ["record", id(v)]
+                    continue
+            if self.sentinels and d.kind in ("assign", "unpack"):
+                self._exprs[id(v)] = v
+                new[d.name] = ["value", id(v)]
         return frozenset((k, v[0], v[1]) for k, v in new.items())
+
+    def _identical(self, x, s, cur):
+        """Is the local `x` the sentinel `s` on this walk?  True / False / None."""
+        if x == s:
+            return True
+        kind, what = cur.get(x, (None, None))
+        if kind == "alias":
+            return True if what == s else None
+        if kind == "record":
+            return False
+        if kind == "value":
+            return False if _cannot_be(self.fa, self._exprs[what], s) else None
+        return None
 
     def resolve(self, t, binds):
         """The test `t` with what the walk knows about its locals written in."""
-        if not binds:
-            return t
         cur = {k: (kind, x) for (k, kind, x) in binds}
-        if not any(isinstance(n, ast.Name) and n.id in cur for n in ast.walk(t)):
+        names = {n.id for n in ast.walk(t) if isinstance(n, ast.Name)}
+        if not (names & (set(cur) | self.sentinels)):
             return t
         consts = self._consts
+        me = self
 
         class T(ast.NodeTransformer):
+            def visit_Compare(self, n):
+                if len(n.ops) == 1 and isinstance(n.ops[0], (ast.Is, ast.IsNot)) and isinstance(n.left, ast.Name) and isinstance(n.comparators[0], ast.Name):
+                    a, b = n.left.id, n.comparators[0].id
+                    if a in me.sentinels:
+                        a, b = b, a
+                    if b in me.sentinels:
+                        v = me._identical(a, b, cur)
+                        if v is not None:
+                            return ast.copy_location(ast.Constant(value=v == isinstance(n.ops[0], ast.Is)), n)
+                self.generic_visit(n)
+                return n
+
             def visit_Attribute(self, n):
                 if isinstance(n.ctx, ast.Load) and isinstance(n.value, ast.Name) and cur.get(n.value.id, ("", 0))[0] == "record" \
                         and n.attr in consts[cur[n.value.id][1]]:
@@ -559,8 +659,9 @@ def deferred_written_out(ck, fi):
 
     An exit stack runs its callbacks when the block is left, however it is left, last registered first, with the
     arguments as they were at registration, and a callback cannot swallow the exception.  Only the plain form is
-    rewritten: S is bound by `with ExitStack() as S`, is used for nothing but `S.callback(<function>, ...)` statements
-    standing directly in that block; anything else (pop_all, enter_context, push, the stack handed on, a callback
+    rewritten: S is bound by `with ExitStack() as S`, is used for nothing but `S.callback(<function>, ...)` and
+    `S.enter_context(<manager>)` statements standing directly in that block (the latter is the `with <manager>:` around
+    the rest of the block that it means); anything else (pop_all, push, the stack handed on, a callback
     registered under a condition) leaves the function as it is — the rules then see no clean-up at all and say so."""
     import copy
     from ..inline import Inliner, NotInlinable, _all_names
@@ -588,17 +689,34 @@ def deferred_written_out(ck, fi):
               and isinstance(w.items[0].optional_vars, ast.Name)]:
         S = w.items[0].optional_vars.id
         regs = {}
+        entered = set()
         for i, st in enumerate(w.body):
             if isinstance(st, ast.Expr) and isinstance(st.value, ast.Call) and isinstance(st.value.func, ast.Attribute) and st.value.func.attr == "callback" \
                     and isinstance(st.value.func.value, ast.Name) and st.value.func.value.id == S and st.value.args \
                     and not any(isinstance(a, ast.Starred) for a in st.value.args) and not any(k.arg is None for k in st.value.keywords) \
                     and isinstance(st.value.args[0], (ast.Name, ast.Attribute, ast.Lambda)):
                 regs[id(st.value.func.value)] = i
+            else:
+                # `S.enter_context(X)` / `v = S.enter_context(X)`: X is left after everything registered later, before
+                # everything registered earlier — a `with X [as v]:` around the rest of the block
+                c_ = st.value if isinstance(st, (ast.Expr, ast.Assign)) else None
+                if isinstance(c_, ast.Call) and isinstance(c_.func, ast.Attribute) and c_.func.attr == "enter_context" and isinstance(c_.func.value, ast.Name) \
+                        and c_.func.value.id == S and len(c_.args) == 1 and not c_.keywords and not isinstance(c_.args[0], ast.Starred) \
+                        and (isinstance(st, ast.Expr) or (len(st.targets) == 1 and isinstance(st.targets[0], ast.Name))):
+                    regs[id(c_.func.value)] = i
+                    entered.add(i)
         mentions = [n for n in _own_walk(node) if isinstance(n, ast.Name) and n.id == S]
         nested_mentions = [n for f in _own_walk(node) if isinstance(f, (ast.FunctionDef, ast.AsyncFunctionDef, ast.Lambda)) for n in ast.walk(f) if isinstance(n, ast.Name) and n.id == S]
         if not regs or nested_mentions or any(id(n) not in regs and n is not w.items[0].optional_vars for n in mentions):
             continue
+        if not (set(regs.values()) - entered):
+            continue
         for i in sorted(regs.values(), reverse=True):
+            if i in entered:
+                st = w.body[i]
+                item = ast.withitem(context_expr=st.value.args[0], optional_vars=st.targets[0] if isinstance(st, ast.Assign) else None)
+                w.body[i:] = [ast.copy_location(ast.With(items=[item], body=w.body[i + 1:] or [ast.copy_location(ast.Pass(), st)]), st)]
+                continue
             call = w.body[i].value
             pre, actual = [], []
             for a in list(call.args) + [k.value for k in call.keywords]:
@@ -906,9 +1024,12 @@ def _r1_run_local(ck, R1):
     served = [r for r in rl.returns() if r.value is not None and rl.nodes(r) and "call:process_existing_memento" in rl.deps(r.value)]
     ck.need(served, "memento_run_local: no 'served from store' return found")
 
+    from .c15 import single_lookups
+    looked_up = {id(e): c for (e, c, recv, _k) in single_lookups(ck, rl) if rl.xnorm(recv, rl.nodes(c)[0]) == "storage_backend"}
+
     def stored(e, at):
         lv = origins(rl, e, at)
-        return bool(lv) and all(isinstance(x, ast.Call) and A.call_attr(x) == "get_memento" and A.norm(A.call_recv(x)) == "storage_backend" for (x, _n) in lv)
+        return bool(lv) and all(id(x) in looked_up for (x, _n) in lv)
     asg = []
     for (st, t, vals) in field_stores(rl):
         if rl.xnorm(t, rl.nodes(st)[0]) == PUSHED + ".memento" and vals and all(stored(v, n) for (v, n) in vals) \
